@@ -1102,6 +1102,8 @@ impl<'a> GeneratorState<'a> {
                     }
                 }
             }
+            // Pending post-increments and the restoration of a saved Y belong before the return
+            self.purge_deferred_plusplus_and_savey()?;
             if f.inline {
                 self.asm(JMP, &ExprType::Label(".endof".into()), 0, false)?;
             } else {
